@@ -774,6 +774,8 @@ class ConciliationState(_WorkingState):
 
         :return: the next Supvisors state.
         """
+        # the Master fixes the failures of the lost Supvisors instances, as in DISTRIBUTION and OPERATION
+        super()._master_next()
         # check if jobs are in progress
         if self.supvisors.starter.in_progress() or self.supvisors.stopper.in_progress():
             return SupvisorsStates.CONCILIATION
